@@ -64,6 +64,7 @@ type Step struct {
 	// then the stream goes on (into its fault)
 	During      []Step `json:"during,omitempty"`
 	Gate        int    `json:"gate,omitempty"`
+	ParkAt      int    `json:"park_at,omitempty"`      // overlap, read-only A: parked just before its ParkAt-th file-system call (1-based) instead of in its body
 	FromListing int    `json:"from_listing,omitempty"` // k>0: the target is the k-th href of the last multi-status answer
 }
 
